@@ -165,6 +165,37 @@ def run(run):
                                   dict(files=[dict(label=l, source_hex=b.hex()[:4000]) for l, b in chosen]))
             finally:
                 shutil.rmtree(root, ignore_errors=True)
+        # ---- contents that keep the parser busy for seconds (tens of thousands of unterminated literals, one such file per
+        #      worker), then ordinary files: the scan ends normally and the ordinary files are all there
+        root = C.scratch("c09slow")
+        try:
+            nslow = 5
+            try:
+                nslow = max(1, int(json.load(open(os.path.join(C.LEAN, "Cpf", "Generated", "tables.json"))).get("poolNumWorkers", "5")))
+            except Exception:
+                pass
+            for i in range(nslow):
+                open(os.path.join(root, "A%d.java" % i), "wb").write(b'"abc\n' * 14000)
+            nsmall = 12
+            for i in range(nsmall):
+                open(os.path.join(root, "Small%02d.java" % i), "w").write(
+                    "package demo;\n\npublic class Small%02d {\n    private int total = %d;\n\n    int helper(int amount) {\n        total = total + amount;\n        return total;\n    }\n}\n" % (i, i))
+            r = h.call(op="scan", dir=root, graph="p9s", nonodes=True, timeout=900)
+            run.count(("slow-project", nslow, nsmall))
+            stats["slow_project_scans"] += 1
+            if r.get("outcome") != "ok":
+                run.violation("C09:project-scan-" + str(r.get("outcome")), "scanning %d files of 14000 unterminated literals each and %d small well-formed files ends with %s: %s" %
+                              (nslow, nsmall, r.get("outcome"), (r.get("panic") or "")[:200]),
+                              dict(generator="checks/c09.py slow project", slow_files=nslow, small_files=nsmall, panic=r.get("panic"), stack=r.get("stack")))
+                if r.get("outcome") in ("died", "hang"):
+                    h = C.Harness()
+            else:
+                cl = h.call(op="query-entities", graph="p9s", q="FROM method_declaration AS m SELECT m.getName()", timeout=60)
+                if cl.get("outcome") == "ok" and len(cl["tuples"]) != nsmall:
+                    run.violation("C09:project-scan-lost-files", "a directory with %d well-formed files behind %d slow ones yields %d of their %d methods" % (nsmall, nslow, len(cl["tuples"]), nsmall),
+                                  dict(generator="checks/c09.py slow project", slow_files=nslow, small_files=nsmall))
+        finally:
+            shutil.rmtree(root, ignore_errors=True)
         run.sample(dict(label="mutated", source=inputs[len(base) + 1][1][:300].decode("utf-8", "replace")))
         # ---- scaling family: operation counts (exact relation) and growth
         sizes = [(6, 4), (18, 4), (54, 4)] if quick else [(10, 4), (30, 4), (90, 4), (270, 4)]
